@@ -268,6 +268,7 @@ type rsCluster struct {
 	counts  map[string]int
 	msgObs  func(from *rsNode, m *raftpb.Message) // durability oracle
 	joinDrop string                               // "", "request", "response": fault for the next AddNode RPC
+	holeSnap map[uint64]int                       // target -> number of MsgSnap to swallow: the call hangs until the sender's deadline (a message lost in the network, not refused)
 }
 
 func newRsCluster(gid uuid.UUID, members bool, rng *Rng) *rsCluster {
@@ -513,6 +514,19 @@ func (r *rsClient) Receive(ctx context.Context, in *pb.RaftMessage, opts ...grpc
 	}
 	if target == nil || target.ctl.isDead() || blocked {
 		return nil, errSimDropped
+	}
+	if m.Type == raftpb.MsgSnap {
+		c.mu.Lock()
+		hole := c.holeSnap[r.to] > 0
+		if hole {
+			c.holeSnap[r.to]--
+			c.counts["fault:snapshot-black-holed"]++
+		}
+		c.mu.Unlock()
+		if hole { // nothing comes back: the sender's call ends with its own deadline
+			<-ctx.Done()
+			return nil, ctx.Err()
+		}
 	}
 	// As over gRPC: the handler runs on the receiving side for as long as it takes (a forwarded
 	// proposal waits inside raft.Step until the receiver knows a leader); the sender gives up
